@@ -2,6 +2,7 @@
 semantics, listening sockets with an accept queue, duplex byte pipes whose
 reads and writes are scheduling points, and a selector."""
 import io
+import re as _re
 import errno
 import socket as _rsocket
 
@@ -67,11 +68,25 @@ class SimConn:
         S().yield_('c.shutwr')
         self.c2s_eof = True
 
-    def recv_all(self, timeout=None):
-        """Read until the server closes.  Returns (bytes, how) where how is
-        'eof' | 'reset' | 'timeout'."""
+    def response_complete(self):
+        """The bytes received so far are a complete HTTP response according
+        to its Content-Length header."""
+        buf = bytes(self.s2c)
+        i = buf.find(b'\r\n\r\n')
+        if i < 0:
+            return False
+        m = _re.search(rb'(?i)\r\ncontent-length:[ \t]*(\d+)[ \t]*\r\n',
+                       buf[:i + 2])
+        return bool(m) and len(buf) >= i + 4 + int(m.group(1))
+
+    def recv_all(self, timeout=None, eager=False):
+        """Read until the server closes - or, for an eager reader, until the
+        response is complete according to its Content-Length, as HTTP clients
+        do.  Returns (bytes, how) where how is 'eof' | 'reset' | 'timeout'."""
         ok = S().block(lambda: self.s2c_eof or self.reset or
-                       self.server_closed, timeout, 'c.recv')
+                       self.server_closed or
+                       (eager and self.response_complete()), timeout,
+                       'c.recv')
         if not ok:
             return bytes(self.s2c), 'timeout'
         if self.reset:
